@@ -292,6 +292,26 @@ func (b *builder) build(s *shapeSpec, v reflect.Value, name string, salt int, sb
 	}
 }
 
+// prefill puts a stale value into every string / int / float / bool field, recursively.
+func prefill(v reflect.Value) {
+	switch v.Kind() {
+	case reflect.Struct:
+		for i := 0; i < v.NumField(); i++ {
+			if v.Field(i).CanSet() {
+				prefill(v.Field(i))
+			}
+		}
+	case reflect.String:
+		v.SetString("stale")
+	case reflect.Int:
+		v.SetInt(777)
+	case reflect.Float64:
+		v.SetFloat(7.77)
+	case reflect.Bool:
+		v.SetBool(true)
+	}
+}
+
 func canonValue(v reflect.Value) string {
 	switch v.Kind() {
 	case reflect.Struct:
@@ -351,6 +371,9 @@ func c05Exec(cs fw.Case) *fw.Fail {
 			src.WriteString("def other_type { zz = 1 }\n")
 			fmt.Fprintf(&src, "bind %s -> struct\n", c.BlockTy)
 			target = reflect.New(t)
+			// the target already holds other values (a configuration reloaded into the same struct): every field
+			// the text sets, and the Name of an unnamed block, replace them
+			prefill(target.Elem())
 		} else {
 			st := reflect.SliceOf(t)
 			want = reflect.New(st)
